@@ -7,7 +7,7 @@ from symtrace.r1cs import Sys
 from symtrace.concrete import flat, lincomb_of
 from . import catalogue as CAT
 from . import common as C
-from .catjob import Job
+from .catjob import lookup, Job
 from .c01 import is_heavy
 
 PID = "C02"
@@ -78,8 +78,8 @@ def adversarial_assignment(m, sysm, t):
 
 
 def run_job(env, spec):
-    entry = CAT.by_name(spec["cfg"]["n"], "thorough")[spec["entry"]]
-    job = Job(PID, env, spec, entry)
+    entry = lookup(spec)
+    job = Job(spec.get("pid", PID), env, spec, entry, spec.get("catalogue", "checks.catalogue"))
     job.cfg["want_ref"] = False
     twin_done = False
     for t in job.explore():
